@@ -82,5 +82,5 @@ proof fn vacuity_axioms(f: v1::Function, x: Map<u64, F64>, a: BinaryIds, b: Bina
             'T5 ASSUMED: the term list of &Function is a function of the message whose terms sum to the polynomial (fterms, ax_fterms_sum)',
         ],
         assumptions=common.A1 + common.A_COO,
-        not_covered=['QUBO refusal for monomials with more than two distinct variables (inside the assumed BinaryIdPair::try_from)', 'the size of the explicit remainders qrem / prem (terms skipped or entries removed because numerically zero)'],
+        not_covered=['the size of the explicit remainders qrem / prem (terms skipped or entries removed because numerically zero)'],
     )
